@@ -88,6 +88,7 @@ def gen_unit(rng, uid, opts):
     u = Unit(uid)
     nS = rng.randint(opts.get("min_structs", 3), opts.get("max_structs", 7))
     p_cl, p_er, p_fn = opts.get("p_cleanup", 0.35), opts.get("p_err", 0.35), opts.get("p_func", 0.45)
+    p_st = opts.get("p_struct", 0.15)
     # package levels are monotone in the struct index: roots (low index) live in importing packages
     cuts = sorted(rng.sample(range(nS + 1), 2)) if rng.random() < 0.7 else [nS, nS]
     if rng.random() < 0.25:
@@ -159,7 +160,7 @@ def gen_unit(rng, uid, opts):
         k, i = t
         x = rng.random()
         if t in force_field:
-            x = p_fn + 0.27 + 0.001        # the branch that makes it a field of a later struct
+            x = p_fn + p_st + 0.12 + 0.001        # the branch that makes it a field of a later struct
         if k in ("v", "p") and t in force_arg:
             add_item({"kind": "arg", "outs": [t], "deps": []})
             continue
@@ -174,7 +175,7 @@ def gen_unit(rng, uid, opts):
                 add_item({"kind": "func", "outs": [t], "deps": later(t, rng.choice([0, 1, 1, 2, 2, 3])),
                           "cleanup": rng.random() < p_cl, "err": allow_err and rng.random() < p_er,
                           "variadic": False, "pkg": fpkg})
-            elif x < p_fn + 0.15 and other not in src and not st["fields"]:
+            elif x < p_fn + p_st and other not in src and not st["fields"]:
                 deps = later(t, rng.choice([0, 1, 2, 3]))
                 # distinct field types are required by Wire; `later` already returns distinct types
                 st["fields"] = [("F%d" % n, d) for n, d in enumerate(deps)]
@@ -193,9 +194,9 @@ def gen_unit(rng, uid, opts):
                         st["extra_pos"] = [rng.randint(0, len(deps)) + n for n in range(len(st["extra"]))]
                 add_item({"kind": "struct", "outs": [("v", i), ("p", i)], "deps": deps, "all": allf,
                           "struct": i, "pkg": st["pkg"]})
-            elif x < p_fn + 0.27:
+            elif x < p_fn + p_st + 0.12:
                 add_item({"kind": "value", "outs": [t], "deps": [], "pkg": st["pkg"]})
-            elif x < p_fn + 0.27 + opts.get("p_field", 0.14) and i + 1 < nS:
+            elif x < p_fn + p_st + 0.12 + opts.get("p_field", 0.14) and i + 1 < nS:
                 # a field of a later struct m which is made by a provider function
                 cands = [m for m in range(i + 1, nS) if not any(it["kind"] == "struct" and it["struct"] == m for it in u.items)]
                 if not cands:
